@@ -223,29 +223,22 @@ func equal(lhsV, rhsV reflect.Value) bool {
 	}
 
 	// Compare a string and a number.
-	// This will attempt to convert the string to a number,
-	// while leaving the other side alone. Code further
-	// down takes care of converting ints and floats as needed.
+	// This will attempt to convert the string to a number, in the same way
+	// whichever side it is on, while leaving the other side alone. Code
+	// further down takes care of converting ints and floats as needed.
 	if isNum(lhsV) && rhsV.Kind() == reflect.String {
-		rhsF, err := tryToFloat64(rhsV)
-		if err != nil {
-			// Couldn't convert RHS to a float, they can't be compared.
+		rhsN, ok := stringToNum(rhsV)
+		if !ok {
+			// Couldn't convert RHS to a number, they can't be compared.
 			return false
 		}
-		rhsV = reflect.ValueOf(rhsF)
+		rhsV = rhsN
 	} else if lhsV.Kind() == reflect.String && isNum(rhsV) {
-		// If the LHS is a string formatted as an int, try that before trying float
-		lhsI, err := tryToInt64(lhsV)
-		if err != nil {
-			// if LHS is a float, e.g. "1.2", we need to set lhsV to a float64
-			lhsF, err := tryToFloat64(lhsV)
-			if err != nil {
-				return false
-			}
-			lhsV = reflect.ValueOf(lhsF)
-		} else {
-			lhsV = reflect.ValueOf(lhsI)
+		lhsN, ok := stringToNum(lhsV)
+		if !ok {
+			return false
 		}
+		lhsV = lhsN
 	}
 
 	if isNum(lhsV) && isNum(rhsV) {
@@ -256,13 +249,13 @@ func equal(lhsV, rhsV reflect.Value) bool {
 		if !lhsIsFloat && !rhsIsFloat {
 			return toInt64(lhsV) == toInt64(rhsV)
 		}
-		// when both are same kind, direct comparison is safe
-		if lhsKind == rhsKind {
-			return toFloat64(lhsV) == toFloat64(rhsV)
-		}
-		// mixed types: use string representation for compatibility
+		// floats of different widths: use string representation for compatibility
 		// (e.g. float32(1.1) should equal float64(1.1))
-		return numToString(lhsV) == numToString(rhsV)
+		if lhsIsFloat && rhsIsFloat && lhsKind != rhsKind {
+			return numToString(lhsV) == numToString(rhsV)
+		}
+		// a float and a float or an integer compare as <= and >= do
+		return toFloat64(lhsV) == toFloat64(rhsV)
 	}
 
 	// Try to compare bools to strings and numbers
@@ -279,6 +272,17 @@ func equal(lhsV, rhsV reflect.Value) bool {
 	}
 
 	return reflect.DeepEqual(lhsV.Interface(), rhsV.Interface())
+}
+
+// stringToNum reads a string as an integer if it is formatted as one, else as a float.
+func stringToNum(v reflect.Value) (reflect.Value, bool) {
+	if i, err := tryToInt64(v); err == nil {
+		return reflect.ValueOf(i), true
+	}
+	if f, err := tryToFloat64(v); err == nil {
+		return reflect.ValueOf(f), true
+	}
+	return v, false
 }
 
 // isHashable returns true if the value can be used as a map key without
